@@ -98,6 +98,15 @@ static CaseResult run_case(Tape &t)
 		}
 		// random case flips
 		if (t.chance(1, 2)) for (auto &c : q) if (t.chance(1, 4)) { if (c >= 'a' && c <= 'z') c = (char)(c - 32); else if (c >= 'A' && c <= 'Z') c = (char)(c + 32); }
+		// look-alikes: one character of the part that has to match the domain (or the dot in front of it) is replaced by a byte that
+		// equals it under a sloppy comparison (bit 5 / bit 6 / bit 7 flipped) or by an arbitrary byte; query labels may carry any byte
+		if (t.chance(1, 5) && q.size() > 1) {
+			size_t span = std::min(q.size(), suffix.size() + 1);
+			size_t pos = q.size() - 1 - t.below((uint32_t)span);
+			unsigned char o = (unsigned char)q[pos], n;
+			switch (t.pick({3, 2, 2, 2})) { case 0: n = (unsigned char)(o ^ 0x20); break; case 1: n = (unsigned char)(o ^ 0x40); break; case 2: n = (unsigned char)(o ^ 0x80); break; default: n = (unsigned char)t.range(1, 255); break; }
+			if (n != 0 && n != '.') q[pos] = (char)n;
+		}
 		if (!name_form_ok(q) || q.size() > 255) q = "a." + suffix;
 		e = chk_match(q, dom, &sig);
 		r.render = "match \"" + q + "\" against \"" + dom + "\"";
